@@ -102,6 +102,32 @@ OffsetsConsistent ==
        /\ \A j \in 1..n : PadSet(OffsetAfter(case, j - 1), Align(case.f[j])) = o[j]
 
 -----------------------------------------------------------------------------
+(* Sessions: two types built one after the other in one process.  A cache keyed by something coarser than the type  *)
+(* (e.g. the approximate equality of bit length sets: min, max, residues modulo 32) would hand the second type the  *)
+(* first one's layout.  TLC selects the pairs of element types whose sets differ although their approximations      *)
+(* coincide ("twins"), wraps both the same way, and fixes the order in which the two definitions are read.          *)
+ApproxKey(t) == LET B == BLS(t) IN <<MinOf(B), MaxOf(B), ModSet(B, 32)>>
+TwinPool(dummy) ==
+     { St(<<Var(U(w, "s"), c)>>) : w \in {8, 16, 32, 64}, c \in 1..4 }
+  \cup { St(<<Var(U(w, "s"), c), V(8)>>) : w \in {16, 32, 64}, c \in 1..2 }
+  \cup { St(<<Var(U(w, "s"), 1), Var(U(w, "s"), 1)>>) : w \in {16, 32} }
+  \cup { Un(<<Var(U(64, "s"), 2), Var(U(32, "s"), 4)>>), Un(<<Var(U(64, "s"), 2), U(8, "s")>>), Un(<<U(64, "s"), U(32, "s"), U(8, "s")>>),
+          Un(<<U(64, "s"), U(8, "s")>>) }
+SessionWraps(t) == << Fix(t, 2), Var(t, 2), Var(t, 3), St(<<t, U(8, "s")>>), Un(<<t, Bool>>), St(<<Bool, Var(t, 2)>>), Del(St(<<t>>), MaxOf(BLS(St(<<t>>))) + 8) >>
+SInit == ph = 0 /\ case = [a |-> Bool] /\ out = 0
+SPickA == ph = 0 /\ \E a \in TwinPool(0) : case' = [a |-> a] /\ out' = 0 /\ ph' = 1
+SPickB == /\ ph = 1
+          /\ \E b \in TwinPool(0) : \E wa \in DOMAIN SessionWraps(b), wb \in DOMAIN SessionWraps(b), first \in {"a", "b"} :
+               /\ b # case.a /\ ApproxKey(b) = ApproxKey(case.a) /\ BLS(b) # BLS(case.a)
+               /\ case' = [a |-> case.a, b |-> b, wa |-> SessionWraps(case.a)[wa], wb |-> SessionWraps(b)[wb], first |-> first]
+               /\ out' = [la |-> LayoutOf(SessionWraps(case.a)[wa]), lb |-> LayoutOf(SessionWraps(b)[wb])]
+          /\ ph' = 2
+SSpec == SInit /\ [][SPickA \/ SPickB]_vars
+\* the two wrapped types are told apart by their sets whenever the wraps are the same (nothing collapses twins)
+TwinsStayDifferent == ph = 2 /\ case.wa.k = case.wb.k /\ case.wa.k \in {"fix", "var"} /\ case.wa.c = case.wb.c => out.la.bls # out.lb.bls
+SessionSymbolic == ph = 2 => Expand(BLSsym(case.wa)) = BLS(case.wa) /\ Expand(BLSsym(case.wb)) = BLS(case.wb)
+
+-----------------------------------------------------------------------------
 (* Boundary enumeration: capacities and variant counts by their bit length *)
 BInit == ph = 0 /\ case = [kind |-> "cap", b |-> 1, hi |-> FALSE, extra |-> 0] /\ out = LeastStd(1)
 BNext == /\ ph = 0
